@@ -46,6 +46,11 @@ def vec1_configs(tier):
         for c in cfgs:
             if c.name in ('v_TC_amcled', 's1_TC_amc_u8', 's2_NTR_amcled_u16', 'ref_std_NTR'):
                 c.maxlen = 3
+    else:
+        # thorough: MaxLen=5 on three configurations (250 k transitions each), MaxLen=4 on all the others
+        for c in cfgs:
+            if c.name not in ('s2_TR_amcled', 's3_NTR_withrealloc', 'v_NTR_stdlike'):
+                c.maxlen = 4
     return cfgs
 
 
@@ -86,7 +91,7 @@ PAIR_SECOND_QUICK = ['assignMove', 'assignCopy', 'swap', 'pushBack', 'eq', 'dest
 
 def params_vec2(tier):
     if tier == 'thorough':
-        return dict(Vals=[1, 2], MaxLen=3, MaxCnt=2, Its=['ptr'], RLens=[0, 1], Ops=VEC2_OPS, WalkLen=400, Pairs=[PAIR_FIRST, None])
+        return dict(Vals=[1, 2], MaxLen=3, MaxCnt=1, Its=['ptr'], RLens=[0, 1], Ops=VEC2_OPS, WalkLen=400, Pairs=[PAIR_FIRST, PAIR_SECOND_QUICK])
     return dict(Vals=[1, 2], MaxLen=2, MaxCnt=1, Its=['ptr'], RLens=[0, 1], Ops=VEC2_OPS, WalkLen=300, Pairs=[PAIR_FIRST_QUICK, PAIR_SECOND_QUICK])
 
 
@@ -187,7 +192,7 @@ def suite_vec(tier, seed):
         results = pmap(one, jobs, workers=8)
         # simulation behaviours of a larger model (beyond the exhaustive scope)
         simjobs = []
-        nsim = 300 if tier == 'quick' else 3000
+        nsim = 300 if tier == 'quick' else 1500
         sim_cfgs = [ImplCfg('sim_s3_NTR_amcled', 'NTR', 'amcled', [('small', 3, 'u32')] * 2 + [('vector', 0, 'u32')]),
                     ImplCfg('sim_s2_TR_withrealloc', 'TR', 'withrealloc', [('small', 2, 'u32')] * 2 + [('fixed', 6)]),
                     ImplCfg('sim_ref_std_NTR', 'NTR', 'stdlike', [('std',)] * 3)]
@@ -257,7 +262,7 @@ def swap2_configs(tier):
 
 def suite_swap2(tier, seed):
     def compute(d):
-        params = dict(Vals=[1, 2], MaxLen=3 if tier == 'quick' else 4, MaxCnt=2, Its=['ptr'], RLens=[0, 1], Ops=SWAP2_OPS,
+        params = dict(Vals=[1, 2], MaxLen=3, MaxCnt=2, Its=['ptr'], RLens=[0, 1], Ops=SWAP2_OPS,
                       WalkLen=300, Alias=False)
         jobs = [(cfg, params) for cfg in swap2_configs(tier)]
         export_models(d, jobs)
@@ -411,7 +416,7 @@ def suite_fault(tier, seed):
         def one(job):
             cfg, params = job
             md, info = vecpipe.mc_export(d, cfg.model(), params, cfg.name)
-            script, finfo = vecpipe.fault_script(md, max_probes=None if tier == 'thorough' else 6000, seed=seed)
+            script, finfo = vecpipe.fault_script(md, max_probes=30000 if tier == 'thorough' else 6000, seed=seed)
             r = run_cfg_script(d, cfg, script, 'faults', batch=300)
             r['mc'] = info
             r['fault_info'] = finfo
@@ -481,8 +486,8 @@ def suite_sets(tier, seed):
             p1 = dict(Keys=[0, 1, 2, 3], Cms=[0, 3], Its=['ptr', 'input'], RLens=[0, 1, 2], MaxLen=4, Ops='SAllOps', WalkLen=300)
             p2 = dict(Keys=[0, 1, 2], Cms=[0, 1], Its=['ptr'], RLens=[0, 2], MaxLen=3, Ops=SET2_OPS, WalkLen=300)
         else:
-            p1 = dict(Keys=[0, 1, 2, 3, 4], Cms=[0, 1, 2, 3], Its=ALL_ITS, RLens=[0, 1, 2, 3], MaxLen=5, Ops='SAllOps', WalkLen=400)
-            p2 = dict(Keys=[0, 1, 2, 3], Cms=[0, 1, 2], Its=['ptr'], RLens=[0, 2, 3], MaxLen=4, Ops=SET2_OPS, WalkLen=400)
+            p1 = dict(Keys=[0, 1, 2, 3, 4], Cms=[0, 1, 2, 3], Its=['ptr', 'input', 'bidir', 'move'], RLens=[0, 1, 2], MaxLen=4, Ops='SAllOps', WalkLen=400)
+            p2 = dict(Keys=[0, 1, 2], Cms=[0, 1, 3], Its=['ptr'], RLens=[0, 2], MaxLen=3, Ops=SET2_OPS, WalkLen=400)
         jobs = [(c, p1) for c in one] + [(c, p2) for c in two]
         # stateless comparator types have one state only
         fixed_cm = {'p_flless_NTR': [0], 'p_flgreater_TC': [1]}
@@ -502,7 +507,7 @@ def suite_sets(tier, seed):
             return r
         results = pmap(one_job, jobs, workers=8)
         # simulated behaviours of a larger scope
-        nsim = 300 if tier == 'quick' else 3000
+        nsim = 300 if tier == 'quick' else 1500
         F, S, R = 'flat', 'small', 'std'
         sims = [SetCfg('sim_fl_NTR', 'NTR', 'stdlike', [(F, 'Cmp'), (F, 'Cmp'), (F, 'Cmp2')]),
                 SetCfg('sim_sm_TR', 'TR', 'amcled', [(S, 'Cmp', 2), (S, 'Cmp', 2), (S, 'Cmp2', 4)]),
@@ -613,7 +618,7 @@ def suite_setfault(tier, seed):
             cfg, params = job
             md, info = setpipe.smc_export(d, cfg.model(), params, cfg.name)
             script, finfo = vecpipe.fault_script(
-                md, max_probes=None if tier == 'thorough' else 5000, seed=seed, label_fn=setpipe.slabel_line,
+                md, max_probes=25000 if tier == 'thorough' else 5000, seed=seed, label_fn=setpipe.slabel_line,
                 epilogue=lambda c: ['?insert %d 0 1 0 0 0 - 0 0' % c, '?eraseKey %d 0 1 0 0 0 - 0 0' % c, '?clear %d 0 0 0 0 0 - 0 0' % c],
                 no_fault_ops=SET_NO_FAULT)
             r = run_set_script(d, cfg, script, 'faults', batch=300)
